@@ -431,6 +431,17 @@ pub fn run(ctx: &Ctx) -> Result<()> {
 			col.out.line(&format!("csv {} => {}", if bytes.is_empty() { "-".into() } else { hex(&bytes) }, txt));
 		}
 		crate::pmcorr::malformed_lines(&mut col, &mut rng, if ctx.thorough { 3000 } else { 300 });
+		// sub-reader requests (length-delimited fields) at and beyond the data length and the u64 range
+		{
+			use versatiles_core::io::{ValueReader, ValueReaderSlice};
+			let data = vec![7u8; 300];
+			let lens: [u64; 12] = [0, 1, 99, 100, 101, 299, 300, 301, u32::MAX as u64, 1 << 63, u64::MAX - 5, u64::MAX];
+			for start in [0u64, 1, 5, 200, 299] { for &len in &lens {
+				let r = guarded(|| { let mut rd = ValueReaderSlice::new_le(&data); rd.set_position(start).unwrap(); rd.get_sub_reader(len).map(|s| s.len()) });
+				let txt = match &r { Ok(Ok(l)) => format!("ok:{start}-{}", start + l), Ok(Err(_)) => "err".into(), Err(m) if m.contains("overflow") => "overflow".into(), Err(_) => "panic".into() };
+				col.out.line(&format!("subreader {start} {len} 300 => {txt}"));
+			} }
+		}
 	}
 	col.finish()
 }
